@@ -46,7 +46,11 @@ var sharedL2 sop.L2Cache
 // first L2 instance it is handed, so it is primed here with the undecorated one.
 func SharedL2() sop.L2Cache {
 	if sharedL2 == nil {
-		sharedL2 = cache.NewL2InMemoryCache()
+		// the very instance infs / database hand out for CacheType InMemory (RemoveBtree & co. clear that one)
+		sharedL2 = sop.GetL2Cache(sop.TransactionOptions{CacheType: sop.InMemory})
+		if sharedL2 == nil {
+			sharedL2 = cache.NewL2InMemoryCache()
+		}
 		cache.GetGlobalL1Cache(sharedL2)
 	}
 	return sharedL2
@@ -165,6 +169,9 @@ func (e *Env) Dump(ctx context.Context, label, store string) (items []KV, count 
 	found := false
 	for _, n := range names {
 		if n == store {
+			if found {
+				return nil, 0, true, fmt.Errorf("store %s is listed more than once by GetStores", store)
+			}
 			found = true
 		}
 	}
@@ -234,7 +241,9 @@ func Digest(si *sop.StoreInfo) string {
 		c.SlotLength, c.IsUnique, c.IsValueDataInNodeSegment, c.IsValueDataActivelyPersisted, c.IsValueDataGloballyCached,
 		c.LeafLoadBalancing, c.CacheConfig}) // not: is_primitive_key / schema / key fields, which SOP infers at run time
 	h := sha1.Sum(ba)
-	if os.Getenv("VERIF_DIGEST_FULL") != "" { return string(ba) }
+	if os.Getenv("VERIF_DIGEST_FULL") != "" {
+		return string(ba)
+	}
 	return fmt.Sprintf("%s/%d/%v/%s", c.Name, c.SlotLength, c.IsUnique, hex.EncodeToString(h[:6]))
 }
 
